@@ -1,6 +1,7 @@
 import OrsoVerif.Lemmas.Persist
 import OrsoVerif.Lemmas.PersistAll
 import OrsoVerif.Lemmas.PersistPy
+import OrsoVerif.Lemmas.PersistFns
 /-!
 # C16 — Schemas and columns survive persistence round-trips unchanged
 
@@ -271,6 +272,163 @@ theorem from_dict_only_repairs (K : Caster V) (fresh : String) (d : Raw V)
   have hd : ({ d with element_type := d.element_type } : Raw V) = d := by cases d; rfl
   rw [hd, h3]
   rfl
+
+/-! ## fourth pass: the persistence functions *as translated from the source, statement by statement*
+
+`Generated/PersistFns.lean` (namespace `Gen.PersistFns`) is rewritten on every run by harness/extractors/c16_fns.py through
+harness/pystmt.py: `FlatColumn.from_dict`, `from_json`, `to_json` with its `default_serializer`, `to_flatcolumn`,
+`RelationSchema.from_dict` and `to_dict` with `_converter`, and every statement of `FlatColumn.__init__` after the attribute
+loop.  The theorems below say that each translated function *is* the reference function of the model, and state the round
+trips over the translated functions.  A change of the source that changes what one of these functions does changes the
+text the theorem is about. -/
+
+-- BEGIN generated-eq
+/-- `FlatColumn.from_dict` (its tests and repairs in source order, then `cls(**dic)`) is the model's `colFromDict` -/
+theorem generated_column_from_dict_eq_model (K : Caster V) (fresh : String) (d : Raw V) :
+    Gen.PersistFns.column_from_dict K fresh d = colFromDict K fresh d :=
+  gen_column_from_dict_eq K fresh d
+
+/-- `FlatColumn.from_json`: parse, then the loader the model calls -/
+theorem generated_from_json_eq_model (K : Caster V) (fresh : String) (d : Raw V) :
+    Gen.PersistFns.from_json K fresh d = load Gen.Persist.jsonLoader K fresh d :=
+  gen_from_json_eq K fresh d
+
+/-- the hook `to_json` gives orjson for what orjson does not write itself: a type member as its text, an expectation
+as its attributes, **anything else TypeError** — bytes, `Decimal`, `timedelta` (this line of the source is the open
+finding C16-K01) -/
+theorem generated_default_serializer_eq_model (o : SerObj) :
+    Gen.PersistFns.default_serializer o = defaultSerializer o :=
+  gen_default_serializer_eq o
+
+/-- `FlatColumn.to_json` (`orjson.dumps(asdict(self), default=default_serializer)`, then parsed) is the model's `colToJson` -/
+theorem generated_to_json_eq_model (K : Caster V) (c : Col V) :
+    Gen.PersistFns.to_json K c = colToJson K c :=
+  gen_to_json_eq K c
+
+/-- `to_flatcolumn` (the keywords it passes, each from the attribute it reads) is the model's `toFlat` -/
+theorem generated_to_flatcolumn_eq_model (K : Caster V) (fresh : String) (c : Col V) :
+    Gen.PersistFns.to_flatcolumn K fresh c = toFlat K fresh c :=
+  gen_to_flatcolumn_eq K fresh c
+
+/-- `RelationSchema.from_dict` on **any** dictionary (keys absent, column entries that are dictionaries, names or
+neither) is the reference `fromDictE` -/
+theorem generated_schema_from_dict_eq_model (K : Caster V) (fresh : String) (d : SDictE V) :
+    Gen.PersistFns.schema_from_dict K fresh d = fromDictE K fresh d :=
+  gen_schema_from_dict_eq K fresh d
+
+/-- `RelationSchema.to_dict` (`asdict` with `_converter`'s rule for one value) is the model's `toDict` -/
+theorem generated_schema_to_dict_eq_model (s : Schema V) : Gen.PersistFns.schema_to_dict s = toDict s :=
+  gen_schema_to_dict_eq s
+
+/-- the statements of `FlatColumn.__init__` after the attribute loop, composed in source order, are the model's
+normalisation (type literal with its fills and their guards, element type, disposition, the default's cast and what its
+`try` turns an exception into, the two DECIMAL defaults with their guards and constants) -/
+theorem generated_init_body_eq_model (K : Caster V) (s : St V) :
+    Gen.PersistFns.init_body K s = initBody K s :=
+  gen_init_body_eq K s
+
+/-- ... and the model's constructor is the attribute loop followed by those translated statements -/
+theorem constructor_is_loop_then_generated_body (K : Caster V) (fresh : String) (r : Raw V) :
+    initSt K fresh r = loopThen K r (Gen.PersistFns.init_body K) := by
+  rw [init_eq_initBody]
+  have : Gen.PersistFns.init_body K = initBody K := funext (gen_init_body_eq K)
+  rw [this]
+-- END generated-eq
+
+/-- **The round trip over the translated functions, for every reachable column state**: for a schema whose columns
+are each in a state reachable by a constructor call (any keyword arguments) followed by any assignments to name,
+description, aliases, nullability, identity, the three statistics, origin and length, the *translated* `from_dict`
+applied to what the *translated* `to_dict` writes gives the schema back. -/
+theorem generated_from_dict_to_dict (K : Caster V)
+    (hIdem : ∀ m v w, K.parse m v = some w → K.truthy w = true → K.parse m w = some w)
+    (fresh : String) (s : Schema V) (h : ∀ c ∈ s.columns, Reachable K c) :
+    Gen.PersistFns.schema_from_dict K fresh (SDictE.ofSDict (Gen.PersistFns.schema_to_dict s)) = .ok s := by
+  rw [gen_schema_from_dict_eq, gen_schema_to_dict_eq, fromDictE_ofSDict]
+  exact fromDict_toDict_eq' K fresh s (fun c hc => reachable_ok K hIdem c (h c hc))
+
+/-- the same for one column through JSON (translated `to_json`, then translated `from_json`), when JSON can carry its
+values -/
+theorem generated_from_json_to_json (K : Caster V)
+    (hIdem : ∀ m v w, K.parse m v = some w → K.truthy w = true → K.parse m w = some w)
+    (fresh : String) (c : Col V) (h : Reachable K c) (hn : JsonNative K c) (hd : DefaultSurvivesJson K c) :
+    (Gen.PersistFns.to_json K c).bind (Gen.PersistFns.from_json K fresh) = .ok c := by
+  have hr := reachable_ok K hIdem c h
+  have := jsonRoundTrip_eq' K fresh c hr.1 hr.2 hn hd
+  unfold jsonRoundTrip at this
+  rw [gen_to_json_eq]
+  cases hj : colToJson K c with
+  | error e => rw [hj] at this; cases this
+  | ok d =>
+    rw [hj] at this
+    show Gen.PersistFns.from_json K fresh d = .ok c
+    rw [gen_from_json_eq]
+    exact this
+
+/-- and the translated `to_flatcolumn` returns the reachable state's current attributes (disposition, expectations,
+length and origin reset) -/
+theorem generated_flatten_reachable (K : Caster V)
+    (hIdem : ∀ m v w, K.parse m v = some w → K.truthy w = true → K.parse m w = some w)
+    (fresh : String) (c : Col V) (h : Reachable K c) :
+    Gen.PersistFns.to_flatcolumn K fresh c
+      = .ok { c with disposition := none, expectations := [], length := none, origin := [] } := by
+  rw [gen_to_flatcolumn_eq]
+  exact toFlat_eq K fresh c (reachable_ok K hIdem c h).1
+
+/-- **A dictionary written by hand**: a column entry that is a name is loaded as `FlatColumn(name=…)` with every declared
+default, an entry that is neither a dictionary nor a name is skipped, a missing `aliases` / `primary_key` key is the
+declared default, a missing `name` / `columns` key is a KeyError. -/
+theorem generated_schema_from_dict_by_hand (K : Caster V) (hn : K.truthy K.none = false) (fresh : String) (a b : String) :
+    Gen.PersistFns.schema_from_dict K fresh { name := some "t", columns := some [.name a, .other, .name b] }
+      = .ok ⟨"t", [], [nameOnly K fresh a, nameOnly K fresh b], none⟩
+    ∧ Gen.PersistFns.schema_from_dict K fresh ({ columns := some [] } : SDictE V) = .error .key
+    ∧ Gen.PersistFns.schema_from_dict K fresh ({ name := some "t" } : SDictE V) = .error .key := by
+  refine ⟨?_, ?_, ?_⟩
+  · rw [gen_schema_from_dict_eq]
+    simp only [fromDictE, loadEntries, init_name_only K hn, nameOnly]
+    rfl
+  · rw [gen_schema_from_dict_eq]; rfl
+  · rw [gen_schema_from_dict_eq]; rfl
+
+/-! ### the declared defaults and the column subclasses, as extracted -/
+
+/-- the declared default of every `FlatColumn` field, from the dataclass declaration (what `init` gives an absent
+keyword; `init_name_only` evaluates the model on a name alone) -/
+theorem declared_defaults :
+    Gen.PersistFns.columnDefaults =
+      [("name", "required"), ("default", "None"), ("type", "OrsoTypes._MISSING_TYPE"), ("element_type", "None"),
+       ("description", "None"), ("disposition", "None"), ("aliases", "factory:list"), ("nullable", "True"),
+       ("expectations", "factory:list"), ("identity", "factory:random_string"), ("length", "None"), ("precision", "None"),
+       ("scale", "None"), ("origin", "factory:list"), ("highest_value", "None"), ("lowest_value", "None"),
+       ("null_count", "None")]
+    ∧ Gen.PersistFns.columnDefaults.map Prod.fst = Gen.Persist.columnFields
+    ∧ Gen.PersistFns.schemaDefaults.map Prod.fst = Gen.Persist.schemaFields
+    ∧ ∀ k ∈ ["aliases", "columns"], Gen.PersistFns.schemaDefaults.lookup k = some "factory:list" := by
+  decide
+
+/-- **every column subclass constructs through the base constructor and leaves the declared attributes alone**: its
+own `__init__` (if it has one) starts with `super().__init__(**kwargs)` and afterwards assigns no declared field of
+`FlatColumn` — so a subclass instance's declared attributes are the result of `init` on its keyword arguments (with the
+subclass's own default for a redeclared field), to which `toFlat_preserves` applies -/
+theorem subclasses_construct_through_base :
+    Gen.PersistFns.subclasses = ["FunctionColumn", "ConstantColumn", "SparseColumn", "RLEColumn", "DictionaryColumn"]
+    ∧ (Gen.PersistFns.subclassInit.map Prod.fst = Gen.PersistFns.subclasses)
+    ∧ ∀ e ∈ Gen.PersistFns.subclassInit, e.2.1 = true ∧ ∀ a ∈ e.2.2, a ∉ Gen.Persist.columnFields := by
+  decide
+
+/-- **every column subclass flattens and persists with the base class's code**: none defines `to_flatcolumn`, `to_json`,
+`from_json`, `from_dict`, an equality or an attribute hook of its own -/
+theorem subclasses_share_persistence :
+    ∀ e ∈ Gen.PersistFns.subclassMethods,
+      ∀ m ∈ ["to_flatcolumn", "to_json", "from_json", "from_dict", "__eq__", "__setattr__", "__getattr__",
+             "__getattribute__", "__post_init__"], m ∉ e.2 := by
+  decide
+
+/-- a declared field that a subclass redeclares (which changes its default: `length = 1` in `FunctionColumn` and
+`ConstantColumn`) is not one of the attributes flattening is to keep -/
+theorem subclass_redeclared_fields_not_flattened :
+    ∀ e ∈ Gen.PersistFns.subclassFields, ∀ f ∈ e.2, f.1 ∈ Gen.Persist.columnFields →
+      f.1 ∉ Gen.Persist.flatKwargs.map Prod.snd := by
+  decide
 
 /-! ## the boundary: what the written forms do not carry (open findings), proved of the model -/
 
